@@ -78,7 +78,7 @@ func genC28(r *sim.Rand, tier string) *sim.Case {
 	for s := 0; s < nsets; s++ {
 		// Choose the regions of this mutation set (1..3; at most 2 when replicated, see NOTES.md) and 1-2 keys in each.
 		maxR := nreg
-		if repl && maxR > 2 {
+		if (repl || reuse) && maxR > 2 {
 			maxR = 2
 		}
 		nr := 1 + r.Intn(maxR)
@@ -152,6 +152,7 @@ type c28 struct {
 	cl      *cliTask
 	tbuf    []string
 	rolled  map[string]bool // keys that received a rollback record at some point
+	coarse  bool
 
 	// per-transaction fault state
 	faultOn                     bool
@@ -198,6 +199,7 @@ func shimCall[R any](s *shim, method int, region uint64, f func(*rkv.Service) (R
 		// Park: the root goroutine decides when this RPC proceeds (and may change leaders first).
 		w.sched.Yield(nil, "rpc")
 	}
+	dbg("  shim %s r%d att=%d armed=%v store=%d", name, region, att, armed, s.store+1)
 	hit := armed && h.faultOn && !h.fired && h.fMethod == method && uint64(h.fRegion+1) == region && h.fAtt == att
 	if hit && h.fMd == fBefore {
 		h.fired = true
@@ -310,6 +312,10 @@ func (h *c28) call(fn func()) bool {
 				h.moveLeader(h.midRegion, h.midStore, h.midMs)
 			}
 			w.step++
+			if !h.coarse {
+				w.tr("release rpc %d", h.rpcIndex)
+				dbg("  release at site %s finished=%v", h.cl.task.Site, h.cl.finished.Load())
+			}
 			w.sched.Release(h.cl.task)
 			w.afterStep()
 			continue
@@ -354,7 +360,7 @@ func (h *c28) moveLeader(region, store, waitMs int) {
 		if p := w.regionPeer(w.nodes[ld], rg); p != nil {
 			_ = p.TransferLeader(peerID(rg, store))
 			w.fault("leader_transfer")
-			w.res.Trace.Add("transfer r%d s%d->s%d wait=%d", rg, ld+1, store+1, waitMs)
+			w.tr("transfer r%d s%d->s%d wait=%d", rg, ld+1, store+1, waitMs)
 			synctest.Wait()
 			w.afterStep()
 		}
@@ -379,10 +385,16 @@ func (h *c28) keyFor(region, slot int) string {
 	return fmt.Sprintf("%c%03d_%d", "anu"[region], h.txnSeq, slot)
 }
 
+// flushTrace emits the buffered per-RPC/apply lines of the current phase in sorted order. For a
+// mutation set with two secondary regions the client visits them in Go map order, and what the
+// second one sees when a fault hits the first depends on that order: those lines are dropped
+// (only the order-independent summary lines of the transaction go into the trace).
 func (h *c28) flushTrace() {
 	sort.Strings(h.tbuf)
 	for _, l := range h.tbuf {
-		h.w.res.Trace.Add("%s", l)
+		if !h.coarse {
+			h.w.tr("%s", l)
+		}
 	}
 	h.tbuf = h.tbuf[:0]
 }
@@ -442,8 +454,9 @@ func (h *c28) runTxn(op sim.Op, opIdx int) {
 			primary = k.key
 		}
 	}
-	if h.repl {
-		// Replicated mode: at most one secondary region (the client iterates secondaries in map order).
+	if h.repl || h.reuse {
+		// At most one secondary region where the visiting order of secondaries (Go map order in
+		// TwoPhaseCommit) would change what is observable: replicated layouts and re-used keys.
 		var kept []*txnKey
 		regs := map[int]bool{}
 		for _, k := range keys {
@@ -465,6 +478,11 @@ func (h *c28) runTxn(op sim.Op, opIdx int) {
 	if primary == "" {
 		primary = keys[0].key
 	}
+	regset := map[int]bool{}
+	for _, k := range keys {
+		regset[k.region] = true
+	}
+	h.coarse = len(regset) > 2
 	var primaryRegion int
 	var muts []*pb.Mutation
 	for _, k := range keys {
@@ -495,7 +513,7 @@ func (h *c28) runTxn(op sim.Op, opIdx int) {
 			h.midAt, h.midRegion, h.midStore, h.midMs = n[1], n[2], n[3], n[4]
 		}
 	}
-	res.Trace.Add("txn %d keys=%d primary=%s start=%d fault=%v/%s/r%d/a%d/%d", h.txnSeq, len(keys), primary, start, h.faultOn, methodNames[h.fMethod], h.fRegion+1, h.fAtt, h.fMd)
+	w.tr("txn %d keys=%d primary=%s start=%d fault=%v/%s/r%d/a%d/%d", h.txnSeq, len(keys), primary, start, h.faultOn, methodNames[h.fMethod], h.fRegion+1, h.fAtt, h.fMd)
 
 	// 1. The real client runs the two-phase commit; the shim injects the designated fault.
 	var merr error
@@ -510,12 +528,7 @@ func (h *c28) runTxn(op sim.Op, opIdx int) {
 	if h.faultOn && !h.fired {
 		res.Probes["fault_position_not_reached"]++
 	}
-	committed := h.primaryCommitted(w.regions[primaryRegion].ID, primary, start)
-	res.Trace.Add("mutate err=%v fired=%v primary-committed=%v", merr != nil, h.fired, committed)
-	res.Checks++
-	if merr == nil && !committed {
-		res.Violate(opIdx, "success_without_primary_commit", nil, "Mutate reported success for transaction start=%d but no commit of primary %s was applied", start, primary)
-	}
+	w.tr("mutate err=%v fired=%v", merr != nil, h.fired)
 
 	// 2. A reader resolves leftovers: CheckTxnStatus on the primary past the TTL, then ResolveLocks region by region.
 	var st *pb.CheckTxnStatusResponse
@@ -543,6 +556,15 @@ func (h *c28) runTxn(op sim.Op, opIdx int) {
 		res.Violate(opIdx, "resolution_failed", map[string]string{"call": "CheckTxnStatus"}, "CheckTxnStatus past the TTL neither reported a commit version nor rolled back: action=%v ttl=%d", st.GetAction(), st.GetLockTtl())
 		h.flushTrace()
 		return
+	}
+	// Whether the primary commit succeeded is decided by the order in which the commit and the
+	// status check applied in the primary's region (a commit still in flight when Mutate gave up
+	// may land first): ask the apply observer now.
+	committed := h.primaryCommitted(w.regions[primaryRegion].ID, primary, start)
+	w.tr("primary-committed=%v", committed)
+	res.Checks++
+	if merr == nil && !committed {
+		res.Violate(opIdx, "success_without_primary_commit", nil, "Mutate reported success for transaction start=%d but no commit of primary %s was applied", start, primary)
 	}
 	res.Checks++
 	if committed != (resolveCommit > 0) {
@@ -573,7 +595,7 @@ func (h *c28) runTxn(op sim.Op, opIdx int) {
 			res.Violate(opIdx, "resolution_failed", map[string]string{"call": "ResolveLocks"}, "ResolveLocks(start=%d, commit=%d, region %d) failed: %v", start, resolveCommit, rg+1, rerr)
 		}
 	}
-	res.Trace.Add("resolved commit=%d action=%v", resolveCommit, st.GetAction())
+	w.tr("resolved commit=%d action=%v", resolveCommit, st.GetAction())
 
 	// 3. Read every key (Get and Scan) at and above the commit version.
 	for _, ver := range []uint64{commit, commit + 30} {
@@ -718,6 +740,9 @@ func execC28(t *testing.T, c *sim.Case) *sim.Result {
 		}
 		w.runUntil(w.now() + 400*time.Millisecond)
 
+		// The scheduler's own "run task@site" lines are replaced by explicit ones: the number of
+		// RPC parks of a 3-region transaction depends on the client's map iteration order.
+		w.sched.Trace = nil
 		h := &c28{w: w, nreg: nreg, repl: repl, reuse: c.CfgInt("reuse_keys", 0) == 1, model: map[string]string{}, rolled: map[string]bool{}, attempts: map[string]int{}}
 		w.tbuf = &h.tbuf
 		mk := func() *client.Client {
@@ -744,7 +769,7 @@ func execC28(t *testing.T, c *sim.Case) *sim.Result {
 				h.runTxn(op, i)
 				ntx++
 			} else if w.faultOp(op) {
-				res.Trace.Add("op %s", op.String())
+				w.tr("op %s", op.String())
 				synctest.Wait()
 				w.afterStep()
 			}
